@@ -15,6 +15,9 @@ sys.path.insert(0, os.path.join(os.path.dirname(os.path.abspath(__file__)), ".."
 import vlib, restlib
 
 PID = "C14"
+# served by vendored code (go-rancher schema/version handlers, promhttp, pprof) or by an inline closure (/ping,
+# translated as a `$handler@` root)
+FRAMEWORK_PATHS = {"/", "/v1", "/v1/schemas", "/v1/schemas/{id}", "/metrics", "/debug/pprof/", "/ping"}
 
 
 def load_routes(ctx, fuzzbin):
@@ -79,13 +82,31 @@ def main(ctx, replay=None):
     # ---- search half
     routes = load_routes(ctx, fuzzbin)
     gen = restlib.Gen(ctx.rng, routes, quick=quick)
+
+    # the translated set must cover the real router: every route the real mux serves (except the
+    # vendored framework / metrics / pprof handlers) has a handler that was translated and judged
+    if tr["ok"]:
+        static = {(("controller" if r["pkg"].startswith("controller") else "replica"), r["path"], r["query"]): r["handler"]
+                  for r in routes_static}
+        missing = []
+        for t in ("controller", "replica"):
+            for rr in routes[t]:
+                key = (t, rr["path"], "&".join(rr["queries"] or []))
+                h = static.get(key)
+                if rr["path"] in FRAMEWORK_PATHS and not h:
+                    continue
+                if not h or h not in tr["verdicts"]:
+                    missing.append("%s %s?%s" % key)
+        if missing:
+            tr["ok"] = False
+            tr["why"] = "routes of the real router without a translated handler: " + "; ".join(missing[:8])
     cases = []
     for t in ("controller", "replica"):
         cases += gen.matrix(t, full=not quick)
         cases += gen.per_state(t)
         cases += gen.repeats(t)
-        cases += gen.scenarios(t, 40 if quick else 1500)
-        cases += gen.random_cases(t, 150 if quick else 4000)
+        cases += gen.scenarios(t, 100 if quick else 2000)
+        cases += gen.random_cases(t, 350 if quick else 6000)
     cases += gen.chain_matrix()
     outs = restlib.run_cases(ctx, fuzzbin, cases, tag="fz")
 
